@@ -587,6 +587,7 @@ def check_stream_swallow(ctx, fi, cls, rule="C06.R11"):
     mistaken for the end of the data."""
     paths = paths_of(ctx, fi, cls)
     verdict = {}
+    relabel = {}
     for p in paths:
         for i, e in enumerate(p.events):
             if e.kind not in ("READ", "READALL", "TELL", "SEEK", "WRITE") or not e.raised or e.depth:
@@ -597,9 +598,17 @@ def check_stream_swallow(ctx, fi, cls, rule="C06.R11"):
             swallowed = any(x.kind == "ENDCATCH" and x["tid"] == nxt["tid"] and x["handler"] == nxt["handler"] for x in p.events[i + 2:])
             k = id(e.node)
             verdict[k] = (verdict.get(k, (True,))[0] and (not swallowed or fi.qual in SWALLOW_FROZEN), e)
+            # ... nor re-labelled: the handler that catches the helper's StreamError must not raise an error of another class in its place
+            rr = next((x for x in p.events[i + 2:] if x.kind == "RAISE"), None)
+            if rr is not None and not swallowed and not rr.a.get("reraised"):
+                k2 = (id(e.node), "relabel")
+                good = rr["cls"] in ("StreamError",) or (rr["cls"] is not None and ctx.model.is_subclass(rr["cls"], "StreamError")) if rr["cls"] in ctx.model.classes else rr["cls"] == "StreamError"
+                relabel[k2] = (relabel.get(k2, (True,))[0] and good, e, rr["cls"])
     for ok, e in verdict.values():
         ctx.ob(rule, fi, ok, "the handler around %s does not end normally: a failing stream is reported, not taken for the end of the data" % e.kind, node=e.node, key="swallowed %s" % e.kind, detail=SWALLOW_FROZEN.get(fi.qual))
-    return len(verdict)
+    for ok, e, cls_ in relabel.values():
+        ctx.ob(rule, fi, ok, "the handler around %s reports the stream failure as StreamError (it raises %s instead: the failing stream is blamed on the value)" % (e.kind, cls_), node=e.node, key="relabelled %s" % e.kind)
+    return len(verdict) + len(relabel)
 
 
 def check_wrappers(ctx, rule="C06.R9"):
@@ -677,7 +686,11 @@ def run(ctx):
     from . import C15
     C15.rot_length_guard(ctx, "C06.R3")         # group indexing of parsed data is dominated by the multiple-of-group guard (else IndexError escapes)
     check_wrappers(ctx)
-    ctx.floor("C06.R9", 10)
+    # the wrapper a bit-level / transformed region parses through is created for this call over the incoming stream and closed afterwards:
+    # units left in a wrapper that outlives the call would let a later, truncated input produce a value (shared with C10.R6)
+    from . import C10 as _C10
+    _C10.machinery(ctx, "C06.R9")
+    ctx.floor("C06.R9", 14)
     n11 = sum(check_stream_swallow(ctx, fi, cls) for fi, cls in protocol_functions(M, PARSE_SIDE + ("_build",)))
     ctl11 = control_model(
         "class StreamError(Exception):\n    pass\n"
